@@ -6,7 +6,7 @@ ROOT = os.path.dirname(os.path.dirname(os.path.dirname(os.path.abspath(__file__)
 props = {json.loads(l)['id']: json.loads(l) for l in open(os.path.join(ROOT, 'properties.jsonl'))}
 base = open(os.path.join(ROOT, 'lib/seedtask/TEMPLATE.md')).read()
 tag = sys.argv[1]
-names = {'': ('A', 'B'), '2': ('C', 'D'), '3': ('E', 'F'), '4': ('G', 'H'), '5': ('I', 'J')}[tag]
+names = {'': ('A', 'B'), '2': ('C', 'D'), '3': ('E', 'F'), '4': ('G', 'H'), '5': ('I', 'J'), '6': ('K', 'L')}[tag]
 def used(pid):
     out = []
     for d in sorted(glob.glob(os.path.join(ROOT, 'seeded/%s-*/meta.json' % pid))):
@@ -31,6 +31,8 @@ for pid in sys.argv[2:]:
         t += "\nFor this round prefer, in this order: (1) a well-meant FIX or hardening commit that makes one case right and silently breaks another; (2) an interaction between two public operations or two configuration options that each work alone; (3) a change in a shared helper, constant, type or table in ANOTHER package that the anchored code relies on; (4) a wrong comparison/arithmetic that only shows for rare interior values (not the page/word/zero/max boundaries earlier rounds already used); (5) if the property quantifies over schedules or histories, an ordering or stale-state mistake. The change must still violate the property AS STATED for inputs inside its quantifier.\n"
     if tag == '5':
         t += "\nFor this round prefer mistakes that come from Go's own semantics or from re-use, in this order: (1) shadowing with := inside a block so an outer variable (error, cursor, count) is never updated; range-loop value copies mutated instead of the element; slice aliasing / append growing into a shared backing array; sign extension or truncation in an integer conversion; operator precedence (&^, <<, % against + -); defer evaluated too early or too late; (2) re-initialisation and re-use: a second call of an Init/Attach/Register/Parse/SetX function on an object that was already used, state that is reset only partially; (3) cleanup or restore steps skipped on an error or early-return path added by a refactor; (4) an off-by-one or wrong comparison on a path that only large or degenerate configurations reach (empty list, single element, maximum count, zero-sized geometry that the property's quantifier still includes). The change must still violate the property AS STATED for inputs inside its quantifier, compile, and pass the existing suite.\n"
+    if tag == '6':
+        t += "\nFor this round prefer, in this order: (1) ONE wrong entry or field in a data table or constant block the anchored code depends on (opcode/argument tables, font or logo descriptors, colour palettes, flag bit values, struct field order/size/padding of a memory-mapped layout, magic numbers, default settings) that only rare inputs select; (2) a change to an exported API's contract made in the callee while ONE caller (in another file or package) still relies on the old contract; (3) a guard added for robustness that is slightly too strong or too weak (rejects a legal edge value, or lets one illegal value through); (4) a performance shortcut (cache, fast path, early exit, batching) that is wrong for one reachable state. The change must still violate the property AS STATED for inputs inside its quantifier, compile, and pass the existing suite.\n"
     if tag:
         t += "\nThis is a LATER round. Ideas already used in earlier rounds — do something different in kind (different code site AND different mechanism), and prefer subtle ones: two cooperating edits that each look fine alone, state that only goes wrong after a specific multi-step history, or a boundary that only a rare configuration reaches:\n" + used(pid) + "\n"
     subprocess.run(['git', '-C', '/repo', 'worktree', 'add', '--detach', wt], capture_output=True)
